@@ -117,6 +117,48 @@ def random_maze(rng, maxn):
     return r, c, cl
 
 
+def two_routes(n, bump, flip=False):
+    """n x n maze made of exactly two corridors from (0,0) to (n-1,n-1): along the border (top row, then last column; 2(n-1) steps)
+    and a staircase hugging the diagonal with one two-step detour at `bump` (2(n-1)+2 steps). A solver whose heuristic
+    over-estimates near the start-end line by more than 2 returns the staircase."""
+    cl = np.zeros((2, n, n), dtype=bool)
+    def link(a, b):
+        (i, j), (k, l) = a, b
+        if i == k: cl[1, i, min(j, l)] = True
+        else: cl[0, min(i, k), j] = True
+    border = [(0, j) for j in range(n)] + [(i, n - 1) for i in range(1, n)]
+    stair = [(0, 0)]
+    while stair[-1] != (n - 1, n - 1):
+        i, j = stair[-1]
+        stair.append((i + 1, j) if i == j else (i, j + 1))
+    # detour (+2 steps): ... (k+1,k) -> (k+1,k-1) -> (k+2,k-1) -> (k+2,k) -> (k+2,k+1) ... instead of (k+1,k) -> (k+1,k+1) -> (k+2,k+1)
+    k = bump
+    idx = stair.index((k + 1, k))
+    assert stair[idx + 1] == (k + 1, k + 1) and stair[idx + 2] == (k + 2, k + 1)
+    stair = stair[:idx + 1] + [(k + 1, k - 1), (k + 2, k - 1), (k + 2, k)] + stair[idx + 2:]
+    for path in (border, stair):
+        for a, b in zip(path, path[1:]): link(a, b)
+    if flip: cl = np.stack([cl[1].T, cl[0].T])
+    return cl
+
+
+def big_jobs(rng, quick):
+    """scale: grids far beyond the exhaustive range (a defect may need a long distance or a large coordinate to show)"""
+    jobs = []
+    for k, (r, c) in enumerate([(50, 50), (36, 72)] if quick else [(50, 50), (36, 72), (72, 36), (64, 64), (90, 30), (100, 100)]):
+        dens = [0.75, 0.9][k % 2]
+        cl = np.zeros((2, r, c), dtype=bool)
+        cl[0, : r - 1, :] = np.array([[rng.random() < dens for _ in range(c)] for _ in range(r - 1)])
+        cl[1, :, : c - 1] = np.array([[rng.random() < dens for _ in range(c - 1)] for _ in range(r)])
+        corners = [(0, 0), (r - 1, c - 1), (0, c - 1), (r - 1, 0)]
+        pairs = [(corners[0], corners[1]), (corners[2], corners[3]), ((rng.randrange(r), rng.randrange(c)), (rng.randrange(r), rng.randrange(c)))]
+        jobs.append((r, c, cl, pairs, f"big{k}"))
+    for k, n in enumerate([50, 64] if quick else [30, 50, 64, 80, 100, 128]):
+        cl = two_routes(n, rng.randrange(2, n - 3), flip=bool(k % 2))
+        jobs.append((n, n, cl, [((0, 0), (n - 1, n - 1)), ((n - 1, n - 1), (0, 0))], f"tworoutes{n}"))
+    return jobs
+
+
 def _work(args):
     rows, cols, cl, pairs = args
     return solve_all(cl, pairs)
@@ -141,6 +183,7 @@ def run(ctx):
         cells = list(itertools.product(range(r), range(c)))
         pairs = list(itertools.product(cells, cells)) if r * c <= 12 else [(ctx.rng.choice(cells), ctx.rng.choice(cells)) for _ in range(40)]
         jobs.append((r, c, cl, pairs, f"rnd{k}"))
+    jobs += big_jobs(ctx.rng, ctx.quick)
     ctx.count("mazes", len(jobs))
     if ctx.quick:
         results = [solve_all(cl, pairs) for r, c, cl, pairs, _ in jobs]
@@ -163,6 +206,9 @@ def run(ctx):
 
 
 def search(ctx):
+    for r, c, cl, pairs, tag in big_jobs(ctx.rng, False):
+        if not judge(ctx, r, c, cl, solve_all(cl, pairs), tag):
+            return
     for k in range(2000 if ctx.quick else 20000):
         r, c, cl = random_maze(ctx.rng, 8)
         cells = list(itertools.product(range(r), range(c)))
